@@ -264,16 +264,19 @@ func worldO(prop, m1, m2, steps, kinds, faults int64) *JobCfg {
 
 func pipe(prop, m, steps, kinds int64) *JobCfg { return world(prop, m, 0, steps, kinds, 0) }
 
+// heavy: the long pole of its check gets 10 workers instead of a quarter of them
+func heavy(j *JobCfg) *JobCfg { j.Workers = 10; return j }
+
 const worldAssume = "event schedules are sequences of: a client read, a poller task drain (at most two other events may precede a pending drain, as with one epoll batch), a backend reply read, and the enabled faults; backends answer the oldest request received on that connection with an echo of its keys; map iteration order explored in OnCReact and CRespCodec.MGet"
 
 func init() {
 	const allKinds = 127
 	register(&CheckSpec{ID: "C01", Patterns: []string{pkgServer},
 		Jobs: func(tier string) []*JobCfg {
-			js := []*JobCfg{pipe(1, 1, 6, allKinds), pipe(1, 2, 8, allKinds), world(1, 2, 0, 7, kG|kM, fBackErr), world(1, 2, 0, 7, kG|kP, fSplit), pipe(1, 3, 6, kG|kP|kQ), world(1, 3, 0, 6, kG|kM|kP|kU, fBatch), world(1, 2, 1, 6, kG|kM, fMulti|fBatch), world(1, 1, 1, 6, kG|kM, fHangup), noMapOrder(job(pkgServer, "HarnessBig", 0, 5000, 20, 256)), noMapOrder(job(pkgServer, "HarnessBig", 0, 17000, 30, 32768)), noMapOrder(job(pkgServer, "HarnessC02Slow", 4)), noMapOrder(job(pkgServer, "HarnessC09Slow", 16, 3)), job(pkgServer, "HarnessC02Rsp", 7, 2, 0), job(pkgServer, "HarnessC02Rsp", 3, 1, 0)}
+			js := []*JobCfg{heavy(world(1, 3, 0, 6, kG|kM|kP|kU, fBatch)), pipe(1, 1, 6, allKinds), pipe(1, 2, 8, allKinds), world(1, 2, 0, 7, kG|kM, fBackErr), world(1, 2, 0, 7, kG|kP, fSplit), pipe(1, 3, 6, kG|kP|kQ), world(1, 2, 1, 5, kG|kM, fMulti|fBatch), world(1, 1, 1, 6, kG|kM, fHangup), noMapOrder(job(pkgServer, "HarnessBig", 0, 5000, 20, 256)), noMapOrder(job(pkgServer, "HarnessBig", 0, 17000, 30, 32768)), noMapOrder(job(pkgServer, "HarnessC02Slow", 4)), noMapOrder(job(pkgServer, "HarnessC09Slow", 16, 3)), job(pkgServer, "HarnessC02Rsp", 7, 2, 0), job(pkgServer, "HarnessC02Rsp", 3, 1, 0)}
 			if tier == "thorough" {
 				// the quick jobs plus deeper ones (each measured to finish within minutes on 16 cores)
-				js = append(js, pipe(1, 2, 10, allKinds), world(1, 2, 0, 9, kG|kM|kP, fSplit), worldO(1, 2, 0, 8, kM|kP, 0), world(1, 1, 1, 8, kG|kM|kP, 0), world(1, 2, 0, 8, allKinds, fWide), world(1, 1, 1, 7, kG|kM, fHangup), noMapOrder(job(pkgServer, "HarnessC09Slow", 16, 4)), noMapOrder(job(pkgServer, "HarnessBig", 0, 17000, 17000, 256)), noMapOrder(job(pkgServer, "HarnessBig", 0, 70000, 5000, 65536)))
+				js = append(js, heavy(world(1, 2, 1, 6, kG|kM, fMulti|fBatch)), pipe(1, 2, 10, allKinds), world(1, 2, 0, 9, kG|kM|kP, fSplit), worldO(1, 2, 0, 8, kM|kP, 0), world(1, 1, 1, 8, kG|kM|kP, 0), world(1, 2, 0, 8, allKinds, fWide), world(1, 1, 1, 7, kG|kM, fHangup), noMapOrder(job(pkgServer, "HarnessC09Slow", 16, 4)), noMapOrder(job(pkgServer, "HarnessBig", 0, 17000, 17000, 256)), noMapOrder(job(pkgServer, "HarnessBig", 0, 70000, 5000, 65536)))
 			}
 			return js
 		},
@@ -284,7 +287,7 @@ func init() {
 		Outside: []string{"longer pipelines and schedules, more than two backends/clients, reply contents other than key echoes"}})
 	register(&CheckSpec{ID: "C09", Patterns: []string{pkgServer},
 		Jobs: func(tier string) []*JobCfg {
-			js := []*JobCfg{pipe(9, 2, 8, allKinds), world(9, 2, 0, 7, kG|kM, fSplit), world(9, 3, 0, 7, kG, fSplit), world(9, 3, 0, 6, kG|kM, fBatch), world(9, 2, 1, 6, kG|kM, fMulti|fBatch), noMapOrder(job(pkgServer, "HarnessC09Slow", 16, 3))}
+			js := []*JobCfg{heavy(world(9, 2, 1, 6, kG|kM, fMulti|fBatch)), pipe(9, 2, 8, allKinds), world(9, 2, 0, 7, kG|kM, fSplit), world(9, 3, 0, 7, kG, fSplit), world(9, 3, 0, 6, kG|kM, fBatch), noMapOrder(job(pkgServer, "HarnessC09Slow", 16, 3))}
 			if tier == "thorough" {
 				// the quick jobs plus deeper ones (each measured to finish within minutes on 16 cores)
 				js = append(js, pipe(9, 2, 10, allKinds), world(9, 2, 1, 7, kG|kM, 0), world(9, 3, 0, 7, kG|kM, fBatch), noMapOrder(job(pkgServer, "HarnessC09Slow", 16, 4)), noMapOrder(job(pkgServer, "HarnessC09Slow", 8, 3)), noMapOrder(job(pkgServer, "HarnessC09Slow", 64, 4)))
@@ -298,7 +301,7 @@ func init() {
 		Outside: []string{"real time, fairness of epoll, more than 3 outstanding requests"}})
 	register(&CheckSpec{ID: "C10", Patterns: []string{pkgServer},
 		Jobs: func(tier string) []*JobCfg {
-			js := []*JobCfg{pipe(10, 2, 8, kG|kS|kM), pipe(10, 3, 8, kG|kS), world(10, 1, 1, 7, kG|kS, 0), worldO(10, 2, 0, 7, kM|kS, 0), world(10, 3, 0, 6, kG|kS|kM, fBatch), noMapOrder(job(pkgServer, "HarnessC10Slow", 16, 3))}
+			js := []*JobCfg{heavy(world(10, 3, 0, 6, kG|kS|kM, fBatch)), pipe(10, 2, 8, kG|kS|kM), pipe(10, 3, 8, kG|kS), world(10, 1, 1, 7, kG|kS, 0), worldO(10, 2, 0, 7, kM|kS, 0), noMapOrder(job(pkgServer, "HarnessC10Slow", 16, 3))}
 			if tier == "thorough" {
 				// the quick jobs plus deeper ones (each measured to finish within minutes on 16 cores)
 				js = append(js, world(10, 2, 1, 8, kG|kS, 0), worldO(10, 2, 0, 8, kM|kS|kG, 0), world(10, 2, 0, 8, kG|kS, fSplit), world(10, 3, 0, 7, kG|kS|kM, fBatch), noMapOrder(job(pkgServer, "HarnessC10Slow", 8, 3)), noMapOrder(job(pkgServer, "HarnessC10Slow", 64, 3)))
@@ -312,10 +315,10 @@ func init() {
 		Outside: []string{"redirected requests (a MOVED/ASK re-send legitimately reorders), more than one connection per node"}})
 	register(&CheckSpec{ID: "C03", Patterns: []string{pkgServer},
 		Jobs: func(tier string) []*JobCfg {
-			js := []*JobCfg{world(3, 1, 1, 7, kG|kM, fUnowned), world(3, 1, 1, 6, kG|kM, fHangup), world(3, 1, 1, 6, kM, fDial), world(3, 1, 1, 6, kG|kM, fBackErr), world(3, 2, 1, 6, kG|kM, fMulti|fBatch), noMapOrder(job(pkgServer, "HarnessBig", 0, 5000, 20, 256)), noMapOrder(job(pkgServer, "HarnessBig", 0, 17000, 30, 32768)), noMapOrder(job(pkgServer, "HarnessBig", 2, 9000, 20, 256)), noMapOrder(job(pkgServer, "HarnessBig", 2, 9000, 5000, 256)), job(pkgServer, "HarnessC17RspSize", 4, 5, 20), job(pkgServer, "HarnessC17RspSize", 12, 5, 40)}
+			js := []*JobCfg{world(3, 1, 1, 7, kG|kM, fUnowned), world(3, 1, 1, 6, kG|kM, fHangup), world(3, 1, 1, 6, kM, fDial), world(3, 1, 1, 6, kG|kM, fBackErr), world(3, 2, 1, 5, kG|kM, fMulti|fBatch), noMapOrder(job(pkgServer, "HarnessBig", 0, 5000, 20, 256)), noMapOrder(job(pkgServer, "HarnessBig", 0, 17000, 30, 32768)), noMapOrder(job(pkgServer, "HarnessBig", 2, 9000, 20, 256)), noMapOrder(job(pkgServer, "HarnessBig", 2, 9000, 5000, 256)), job(pkgServer, "HarnessC17RspSize", 4, 5, 20), job(pkgServer, "HarnessC17RspSize", 12, 5, 40)}
 			if tier == "thorough" {
 				// the quick jobs plus deeper ones (each measured to finish within minutes on 16 cores)
-				js = append(js, world(3, 1, 1, 7, kG|kM, fHangup), world(3, 1, 1, 7, kM, fDial), world(3, 1, 1, 7, kG|kM, fLoss), world(3, 1, 1, 7, kG|kM, fTimeout), worldO(3, 1, 1, 7, kM, fUnowned), world(3, 1, 1, 7, kG|kM, fRemove), world(3, 1, 1, 8, kG, fHangup|fLate), noMapOrder(job(pkgServer, "HarnessBig", 2, 70000, 5000, 65536)), noMapOrder(job(pkgServer, "HarnessBig", 2, 17000, 17000, 32768)), noMapOrder(job(pkgServer, "HarnessBig", 0, 17000, 17000, 256)), noMapOrder(job(pkgServer, "HarnessBig", 0, 70000, 5000, 65536)))
+				js = append(js, heavy(world(3, 2, 1, 6, kG|kM, fMulti|fBatch)), world(3, 1, 1, 7, kG|kM, fHangup), world(3, 1, 1, 7, kM, fDial), world(3, 1, 1, 7, kG|kM, fLoss), world(3, 1, 1, 7, kG|kM, fTimeout), worldO(3, 1, 1, 7, kM, fUnowned), world(3, 1, 1, 7, kG|kM, fRemove), world(3, 1, 1, 8, kG, fHangup|fLate), noMapOrder(job(pkgServer, "HarnessBig", 2, 70000, 5000, 65536)), noMapOrder(job(pkgServer, "HarnessBig", 2, 17000, 17000, 32768)), noMapOrder(job(pkgServer, "HarnessBig", 0, 17000, 17000, 256)), noMapOrder(job(pkgServer, "HarnessBig", 0, 70000, 5000, 65536)))
 			}
 			return js
 		},
